@@ -1,1 +1,61 @@
-From TB Require Import Base.
+(** C10 - a torrent loads iff it is well-formed, and the loaded fields are faithful.
+    Statements only. [spec_doc] (TorrentSpec.v) is the well-formedness specification, written over
+    the abstract value with exact-key look-ups. *)
+From TB Require Import Base Decimal BencodeModel BencodeSpec Utf8 Generated GeneratedObligations LayoutModel LayoutSpec TorrentModel TorrentSpec TorrentProofs LayoutProofs.
+Local Open Scope N_scope.
+
+(** A byte string (of any length a machine can hold) loads iff it is the canonical encoding of a
+    value meeting the specification; the result is the torrent the specification computes. *)
+Theorem C10_load_iff_wellformed H x t : len x <= u64max ->
+  (load H x = Ok t <-> exists v, canonical v /\ x = enc v /\ spec_doc H v = Some t).
+Proof. exact (load_iff_spec H x t). Qed.
+
+(** What the specification demands, clause by clause, and that the loaded fields are the values
+    in the input: name ('.utf-8' variant first) valid UTF-8 and plain; pieces a string of whole
+    20-byte hashes which are its consecutive blocks; piece length unsigned 64-bit; exactly one of an
+    unsigned length or a non-empty files list; as many hashes as ceil(total / piece length). *)
+Theorem C10_fields_faithful d ih t : spec_info d ih = Some t ->
+  t_info_hash t = ih /\
+  first_some (v_str (lookup d key_name_utf8)) (v_str (lookup d key_name)) = Some (t_name t) /\
+  utf8_valid (t_name t) = true /\ is_plain (t_name t) = true /\
+  (exists pcs, v_str (lookup d key_pieces) = Some pcs /\ len pcs mod hash_len = 0 /\
+               t_pieces t = chunks (length pcs) (N.to_nat hash_len) pcs) /\
+  (exists plz, v_int (lookup d key_piece_length) = Some plz /\ to_u64 plz = Some (t_piece_length t)) /\
+  ((exists z flen, v_int (lookup d key_length) = Some z /\ v_list (lookup d key_files) = None /\
+      to_u64 z = Some flen /\ t_length t = Some flen /\ t_files t = None /\
+      hash_count_ok flen (t_piece_length t) (len (t_pieces t)) = true) \/
+   (exists l fs, v_int (lookup d key_length) = None /\ v_list (lookup d key_files) = Some l /\
+      spec_files l = Some fs /\ fs <> [] /\ t_length t = None /\ t_files t = Some fs /\
+      hash_count_ok (sumN (map f_length fs)) (t_piece_length t) (len (t_pieces t)) = true)).
+Proof. exact (spec_info_fields d ih t). Qed.
+
+(** The hashes are exactly the consecutive blocks of the pieces string. *)
+Theorem C10_hashes_are_blocks n fuel b : (0 < n)%nat -> (length b <= fuel)%nat -> concat (chunks fuel n b) = b.
+Proof. intros Hn. exact (chunks_concat n Hn fuel b). Qed.
+
+(** Look-ups are by exact key: in a canonical dictionary the scan finds precisely the value bound
+    to the key equal to the target - a neighbouring key that merely shares a prefix never substitutes. *)
+Theorem C10_exact_key kvs prev key v : keys_sorted prev kvs -> (lookup kvs key = Some v <-> In (key, v) kvs).
+Proof. intros Hs. exact (lookup_exact kvs prev Hs key v). Qed.
+
+(** The hash-count clause is the ceil(total / piece length) relation used by the layout (C06). *)
+Theorem C10_hash_count files L nh : hash_count_ok (total files) L (N.of_nat nh) = true <-> hashes_ok files L nh.
+Proof. exact (hash_count_ok_iff files L nh). Qed.
+
+(** Non-vacuity: a two-file document with a decoy key and a '.utf-8' path loads. *)
+Example C10_example :
+  exists t, load (fun _ => []) (enc (BDict [([105;110;102;111],
+       BDict [([102;105;108;101;115], BList [BDict [([108;101;110;103;116;104], BInt 3); ([112;97;116;104], BList [BStr [97]])];
+                                            BDict [([108;101;110;103;116;104], BInt 0); ([112;97;116;104], BList [BStr [98]]); ([112;97;116;104;46;117;116;102;45;56], BList [BStr [99]; BStr [100]])]]);
+              ([108;101;110;103;116], BInt 9);
+              ([110;97;109;101], BStr [110]);
+              ([112;105;101;99;101;32;108;101;110;103;116;104], BInt 4);
+              ([112;105;101;99;101;115], BStr (repeat 7 20))])])) = Ok t
+   /\ t_files t = Some [{| f_length := 3; f_path := [[97]] |}; {| f_length := 0; f_path := [[99];[100]] |}].
+Proof. eexists. split; vm_compute; reflexivity. Qed.
+
+Print Assumptions C10_load_iff_wellformed.
+Print Assumptions C10_fields_faithful.
+Print Assumptions C10_hashes_are_blocks.
+Print Assumptions C10_exact_key.
+Print Assumptions C10_hash_count.
